@@ -1,6 +1,6 @@
 (** C01 — Each generated input is benchmarked once; each value is dropped once.
     Statements only; each closed by [exact] of a lemma in Proofs/Sample*.v. *)
-From DivanV Require Import Base.Res Model.Sample Proofs.Sample Proofs.SamplePlace Proofs.SamplePanic Proofs.SampleMeaning Proofs.SampleRounds.
+From DivanV Require Import Base.Res Model.Sample Proofs.Sample Proofs.SamplePlace Proofs.SamplePanic Proofs.SampleMeaning Proofs.SampleRounds Proofs.SampleCounters.
 Local Open Scope nat_scope.
 
 (** For all six entry points [e], all declared type shapes [sh] ({ZST, sized} x
@@ -211,3 +211,24 @@ Theorem C01_rounds_exec : forall e sh cs u sizes,
   Forall (fun n => exec_ok (sample_prog e sh n cs u) = true) sizes.
 Proof. exact rounds_exec. Qed.
 Print Assumptions C01_rounds_exec.
+
+(** Which input counters every value must be shown to ([cs] above): resolved
+    from the sequence of counter calls made on the bencher.  The last call of a
+    kind decides — an input counter ([input_counter], [count_inputs_as]) or a
+    constant ([counter]) — and calls of other kinds never matter. *)
+Theorem C01_counters_last_call_decides : forall l c,
+  resolve (l ++ [c]) (ccall_kind c) = ccall_stat c.
+Proof. exact resolve_last. Qed.
+Print Assumptions C01_counters_last_call_decides.
+
+Theorem C01_counters_kinds_independent : forall l c k,
+  k <> ccall_kind c -> resolve (l ++ [c]) k = resolve l k.
+Proof. exact resolve_other. Qed.
+Print Assumptions C01_counters_kinds_independent.
+
+Theorem C01_counter_in_force_iff_last_is_input : forall l1 c l2 k,
+  ccall_kind c = k -> Forall (fun c' => ccall_kind c' <> k) l2 ->
+  uses (counters_in_force (resolve (l1 ++ c :: l2)) false) k =
+  match c with CInput _ _ => true | CConst _ => false end.
+Proof. exact in_force_iff_last_is_input. Qed.
+Print Assumptions C01_counter_in_force_iff_last_is_input.
